@@ -4,7 +4,7 @@ import json, os, sys
 V = os.path.dirname(os.path.dirname(os.path.abspath(__file__)))
 props = [json.loads(l) for l in open(os.path.join(V, "properties.jsonl"))]
 
-PV_NOTE = "trusts rustc/cargo, proptest's generators and shrinker, and the harness's own oracle code; verdict = held on the generated cases only"
+PV_NOTE = "trusts rustc/cargo, proptest's generators and shrinker, and the harness's own oracle code; verdict = held on the generated cases only; a tenth of the cases is repeated in child processes (build profile without debug assertions; every unset environment variable reading as a generated value via an LD_PRELOAD getenv shim) and ~20 saved cases per property are replayed first"
 CLAIMED = {
  # id: (engine, technique, level text, level note)
  "C01": ("pv", "round-trip property (inverse oracle) over generated inputs with proptest + exhaustive boundary-length sweep, 4 versions x 3 layers",
@@ -25,12 +25,12 @@ CLAIMED = {
          "Byte-for-byte comparison of local tokens with the reference, cross-verification of public tokens in both directions, library decryption of reference tokens with arbitrary wire nonces, footer-segment structure; the reference re-derives every official vector before each run.",
          PV_NOTE + "; RSA-PSS (ring) and Poly1305 primitives are shared with the library"),
  "C09": ("pv", "exhaustive length/prefix/hex sweeps + generated arbitrary text under catch_unwind (proptest); thorough adds a libFuzzer target",
-         "Every decoded payload length 0..=400 per header/layer, every prefix/suffix/deletion of authentic tokens and every hex-key length 0..=200 (valid hex to 1100 and around powers of two to 2^20) are enumerated completely; arbitrary token text, footer segments decoding to (unbalanced) JSON documents and authentic tokens with hostile claim values are generated (60k quick / 1.1M thorough). Any unwind is a violation keyed by panic location.", PV_NOTE),
+         "Every decoded payload length 0..=400 per header/layer, every prefix/suffix/deletion of authentic tokens and every hex-key length 0..=200 (valid hex to 1100 and around powers of two to 2^20) are enumerated completely; arbitrary token text, footer segments decoding to (unbalanced) JSON documents and authentic tokens with hostile claim values are generated (60k quick / 1.1M thorough). Any unwind is a violation keyed by panic location; inputs nested up to 10^6 levels deep are parsed in a helper process whose death (stack overflow) is a violation for the announced case.", PV_NOTE),
  "C10": ("pv", "history invariant over N generated builds per (version, builder, mode) - sequential, interleaved with other versions, concurrent on 8/16 threads, continued in a forked process: pairwise-distinct nonces/tokens + per-bit Hoeffding bound + per-byte variety",
-         "24 histories of 20,000 (quick) / 100,000 (thorough) builds under one key with identical or varying claims and with one builder built repeatedly, plus large claims, generated interleavings with other versions, 8 concurrent histories (8/16 threads at the same time) and 24 histories continued in a forked child; nonce fields must be pairwise distinct (no shared 8-byte window for v3/v4), every nonce bit within N/2 +- sqrt(30N), every byte position varied.",
+         "24 histories of 20,000 (quick) / 100,000 (thorough) builds under one key with identical or varying claims and with one builder built repeatedly, plus large claims, generated interleavings with other versions, 8 concurrent histories (8/16 threads at the same time), 24 histories continued in a forked child and 24 during which getrandom() starts failing (fault injection), claims that look like nonce material; nonce fields must be pairwise distinct (no shared 8-byte window for v3/v4), every nonce bit within N/2 +- sqrt(30N), every byte position varied.",
          PV_NOTE + "; observes the OS RNG, unpredictability itself is not decidable by observation"),
  "C11": ("pv", "model-based: generated instants x renderings (offset, fraction, separator, zone) and non-timestamp values placed in exp of authentic tokens, accept/reject model with don't-care classes; proptest + deterministic offset grid",
-         "PasetoParser::default() on authentic tokens of all 8 protocols whose exp is past/future (log-uniform distance from 2 s to 1971 / 60 s to year 9000) in every UTC offset and fraction form, or a non-timestamp JSON value; must reject past and malformed (21 near-miss formats), accept absent and strict future; members written twice and decoy members; claims handed back never show an expired exp; the same parser is kept across the instant its token expires; the whole rule set re-run in child processes whose wall clock is SET to 5 (thorough 12) calendar boundaries.", PV_NOTE + "; reads the wall clock with >= 2 s / >= 60 s margins; the SET clock needs the system cc (skipped, and said so in the evidence, without it)"),
+         "PasetoParser::default() on authentic tokens of all 8 protocols whose exp is past/future (log-uniform distance from 2 s to 1971 / 60 s to year 9000) in every UTC offset and fraction form, or a non-timestamp JSON value; must reject past and malformed (21 near-miss formats), accept absent and strict future; members written twice and decoy members; claims handed back never show an expired exp; the same parser is kept across the instant its token expires; the whole rule set re-run in child processes whose wall clock is SET to 6 (thorough 14) calendar boundaries, one (three) of them FROZEN so that exp / nbf can sit on now to the nanosecond (exp == now must be refused).", PV_NOTE + "; reads the wall clock with >= 2 s / >= 60 s margins; the SET clock needs the system cc (skipped, and said so in the evidence, without it)"),
  "C12": ("pv", "model-based as C11 for nbf plus all (exp, nbf) class combinations; proptest + deterministic grid",
          "Same space as C11 with the direction reversed for nbf and the 25 (exp class x nbf class) combinations; accept iff exp in {absent, future} and nbf in {absent, past}; near-miss formats, members written twice, decoy members, clock crossing and SET-clock children as for C11.", PV_NOTE + "; reads the wall clock with margins"),
  "C13": ("pv", "stateful model-based testing of PasetoBuilder call histories: exhaustive to length 5/6 over a 9-operation alphabet + proptest-generated histories to length 30; payload read back through GenericParser",
@@ -46,7 +46,7 @@ CLAIMED = {
  "C18": ("pv", "exhaustive sweeps (69,905 keys of length <= 4 over a 16-symbol alphabet, 18,278 short lower-case keys, ~91,000 byte-truncation confusables of the reserved keys) x 13 constructor/value-type forms + generated decorated keys and RFC 3339 / non-date strings; every leap day of 0000-9999; proptest",
          "Reserved(k) iff key is exactly one of the seven, for every constructor form and value type; time-claim constructors accept every generated RFC 3339 date-time verbatim and reject the must-reject domain.", PV_NOTE),
  "C19": ("c19-driver", "exhaustive generation of a finite family of programs (metamorphic: known-good template with one type parameter replaced) with an explicit compile/reject oracle table, decided by rustc",
-         "All 618 programs of the (operation, token protocol, key protocol) family, wrong-purpose methods, assertion setters/arities and key constructions are generated and type-checked against the working tree; the negative ones (incl. conversions between key types of different protocols, Default, nonce sizes) must be rejected with type-level errors only, the positive templates must compile. Thorough re-checks every negative program in isolation.",
+         "All 812 programs of the (operation, token protocol, key protocol) family, wrong-purpose methods, assertion setters/arities and key constructions are generated and type-checked against the working tree; the negative ones (incl. conversions between key types of different protocols, Default, nonce sizes) must be rejected with type-level errors only, the positive templates must compile. Thorough re-checks every negative program in isolation.",
          "decided for the rustc of this image; the table covers the operations named in the statement"),
  "C20": ("c20-driver", "exhaustive enumeration of generated feature configurations with an accept oracle (cargo check/run) and ddmin shrinking",
          "Every configuration of the stated lattice (quick: singletons, pairs, triples at core, full, full-minus-one, default, none x layers; thorough: all 255 x 3) is compiled and, for the run subset, executed with one round trip per enabled protocol and layer plus known answers (from the harness's independent spec transcription) for the four local and the two Ed25519 protocols; monotonicity pairs S<S' compiled. Exhaustive in thorough.",
